@@ -13,7 +13,7 @@ CFG = {
             "Any/All/First/Select/PartitionMatch with 8 predicates, Equal against equal / differing / other-implementation siblings); "
             "random: universes up to 64 keys, up to 400 steps, sorted / reverse / zig-zag / random insertion prefixes, churn with "
             "interleaved random queries (absent keys included), DeleteMin / DeleteMax / alternating drains. "
-            "A case is non-trivial when at least two mutators changed the table and it reached two or more keys; "
+            "A case is non-trivial when at least two mutators changed the number of keys and the table reached two or more keys; "
             "distinct = distinct (implementation, comparator, mutator list).",
     "assumptions": ["Go int arithmetic does not overflow (sizes and ranks are below 2^31)",
                     "comparators are deterministic and satisfy the TotalOrder laws of C01/Spec.v (total preorder; only the sign is used)",
